@@ -217,6 +217,16 @@ impl E1Oracle for C15Oracle {
         let _ = g.to_single_edges();
         let _ = (g.get_degree_for_all_nodes(), g.number_of_edges());
     }
+    fn fingerprint(&mut self, g: &G, alphabet: &Alphabet) -> u64 {
+        let mut h = 0u64;
+        let sub = g.get_subgraph(&alphabet.names);
+        fp_mix(&mut h, sub.get_all_edges().len() as u64);
+        fp_mix(&mut h, sub.number_of_nodes() as u64);
+        fp_mix(&mut h, g.reverse().map_or(u64::MAX, |r| r.get_all_edges().len() as u64));
+        fp_mix(&mut h, g.to_single_edges().map_or(u64::MAX, |r| r.get_all_edges().len() as u64));
+        fp_mix(&mut h, g.set_all_edge_weights(5.0).size(true).to_bits());
+        h
+    }
     fn state(&mut self, s: &StateCtx, rec: &Recorder, c: &mut Counters) {
         c.inc("states_checked");
         let tags = crate::c09::c09_tags(&Base::of(s.g));
